@@ -4,7 +4,7 @@ CONSTANTS
   MaxDepth = 3
   MaxUnits = 1
   MaxVar = 1
-  UnitKinds <- ExhUnits
+  UnitKinds <- ExhUnits0
   ConKinds <- ExhCons
   SpecKinds <- ExhSpec
   SimpleV <- Set1
@@ -28,8 +28,8 @@ CONSTANTS
   NeedStruct = FALSE
   MaxRich <- Unlimited
   NCmtCls = 7
-  NCppForms = 18
-  NGarb = 5
+  NCppForms = 27
+  NGarb = 7
   DirectiveCls <- DirCls
 INVARIANT WellNested
 INVARIANT GrammarInNest
